@@ -723,8 +723,16 @@ func (r *Round) getState() Phase {
 }
 
 func (r *Round) setPhase(state Phase) {
-	if state > r.getState() {
-		atomic.StoreInt32((*int32)(&r.phase), int32(state))
+	// compare-and-swap: with a separate load and store two concurrent callers can both pass the
+	// check and the lower phase can overwrite the higher one, moving the round backwards
+	for {
+		cur := atomic.LoadInt32((*int32)(&r.phase))
+		if int32(state) <= cur {
+			return
+		}
+		if atomic.CompareAndSwapInt32((*int32)(&r.phase), cur, int32(state)) {
+			return
+		}
 	}
 }
 
